@@ -9,6 +9,8 @@
 EXTENDS Integers, Sequences, FiniteSets, TLC
 CONSTANTS NJobs, PanicJobs, MaxW, Standby, Batch, QCap, WN, WithExpiry, WithClose,
           AtomicExpiry,   \* TRUE: the expiry check and the decrement of workerCount are one critical section (repaired tree)
+          QueueGuardedClose, \* TRUE: GetChannel() on a queue closed meanwhile is harmless (repaired queue); FALSE: its wake-up
+                          \*   notification panics in the worker, which reports it to the panic handler (pinned tree)
           NotifyOnExit    \* which worker exits wake the spawn loop: "never" (pinned tree) | "panic" (repaired tree) | "always"
 Jobs == 1..NJobs
 W == 1..WN
@@ -85,10 +87,12 @@ WLoop(i) ==
   /\ UNCHANGED <<queue, qClosed, tok, closed, wcount, wbusy, spc, sexp, sleft, wjob, wisbusy, wpanic, wleft, subpc, sidx, sres, ran, handler, maxrun, xpc>>
 WTake(i) ==
   /\ wpc[i] = "select"
-  /\ \/ /\ queue # <<>> /\ wjob' = [wjob EXCEPT ![i] = Head(queue)] /\ queue' = Tail(queue)
+  /\ \/ /\ qClosed /\ ~QueueGuardedClose /\ wpanic' = [wpanic EXCEPT ![i] = TRUE] /\ wpc' = [wpc EXCEPT ![i] = "exit"]
+        /\ UNCHANGED <<wjob, queue>>
+     \/ /\ (qClosed => QueueGuardedClose) /\ UNCHANGED wpanic /\ queue # <<>> /\ wjob' = [wjob EXCEPT ![i] = Head(queue)] /\ queue' = Tail(queue)
         /\ wpc' = [wpc EXCEPT ![i] = "got"]
-     \/ /\ queue = <<>> /\ qClosed /\ wpc' = [wpc EXCEPT ![i] = "loop"] /\ UNCHANGED <<wjob, queue>>
-  /\ UNCHANGED <<qClosed, tok, closed, wcount, wbusy, spc, sexp, sleft, wisbusy, wpanic, wleft, subpc, sidx, sres, ran, handler, maxrun, xpc>>
+     \/ /\ QueueGuardedClose /\ UNCHANGED wpanic /\ queue = <<>> /\ qClosed /\ wpc' = [wpc EXCEPT ![i] = "loop"] /\ UNCHANGED <<wjob, queue>>
+  /\ UNCHANGED <<qClosed, tok, closed, wcount, wbusy, spc, sexp, sleft, wisbusy, wleft, subpc, sidx, sres, ran, handler, maxrun, xpc>>
 WExpire(i) ==
   /\ WithExpiry /\ wpc[i] = "select" /\ wpc' = [wpc EXCEPT ![i] = "expired"]
   /\ UNCHANGED <<queue, qClosed, tok, closed, wcount, wbusy, spc, sexp, sleft, wjob, wisbusy, wpanic, wleft, subpc, sidx, sres, ran, handler, maxrun, xpc>>
